@@ -498,6 +498,21 @@ func (r *svcRunner) do(op sOp) {
 		r.do(sOp{Op: "Deliver", C: op.C})
 		r.settle()
 		r.do(sOp{Op: "End", C: op.C, How: "introspect"})
+	case "Hold":
+		// a client that connects, is accepted and stays
+		r.do(sOp{Op: "Connect", C: op.C})
+		r.settle()
+		r.do(sOp{Op: "Deliver", C: op.C})
+	case "Ask":
+		// an open connection introspects (also while the service drains after a Shutdown)
+		c := r.clients[op.C]
+		if c == nil || c.state != "delivered" {
+			r.log.Ev("OPFAIL", tr.M{"why": "Ask: connection is not open"})
+			return
+		}
+		r.introspect(c)
+	case "Drop":
+		r.do(sOp{Op: "End", C: op.C, How: "close"})
 	case "End":
 		c := r.clients[op.C]
 		if c == nil || c.state != "delivered" {
